@@ -30,6 +30,10 @@ pub enum AOp {
     /// wait until flag f is set: hand-written future registering its waker (before / after the check)
     FlagWait(usize, bool),
     FlagSet(usize),
+    /// like FlagWait, but the first poll, after registering its waker, blocks on a std-style
+    /// channel until some FlagSet sends its hand-shake message (a wake can arrive while the task is
+    /// Blocked inside its poll), then returns Pending
+    FlagWaitBlocking(usize),
     /// race two flag waits, drop the loser
     Select2(usize, usize),
     YieldNow,
@@ -58,6 +62,32 @@ struct Case {
 struct Flag {
     set: AtomicBool,
     wakers: StdMutex<Vec<Waker>>,
+    tx: shuttle::sync::mpsc::Sender<()>,
+    rx: StdMutex<Option<shuttle::sync::mpsc::Receiver<()>>>,
+}
+
+struct FlagWaitBlocking {
+    ctx: Arc<Ctx>,
+    f: usize,
+    rx: Option<shuttle::sync::mpsc::Receiver<()>>,
+}
+
+impl Future for FlagWaitBlocking {
+    type Output = ();
+    fn poll(mut self: Pin<&mut Self>, cx: &mut Context<'_>) -> Poll<()> {
+        let ctx = self.ctx.clone();
+        let fl = &ctx.flags[self.f];
+        if fl.set.load(Ordering::SeqCst) {
+            return Poll::Ready(());
+        }
+        fl.wakers.lock().unwrap().push(cx.waker().clone());
+        if let Some(rx) = self.rx.take() {
+            log("BR", self.f.to_string(), "");
+            let _ = rx.recv();
+            log("BU", self.f.to_string(), "");
+        }
+        Poll::Pending
+    }
 }
 
 struct Ctx {
@@ -232,7 +262,13 @@ fn run_ops(ctx: Arc<Ctx>, body: usize, ops: Vec<AOp>, prefix: String) -> Pin<Box
                     for w in ws {
                         w.wake();
                     }
+                    let _ = ctx.flags[*f].tx.send(());
                     n.to_string()
+                }
+                AOp::FlagWaitBlocking(f) => {
+                    let rx = ctx.flags[*f].rx.lock().unwrap().take();
+                    FlagWaitBlocking { ctx: ctx.clone(), f: *f, rx }.await;
+                    "".into()
                 }
                 AOp::Select2(f, g) => {
                     let a = FlagWait { ctx: ctx.clone(), f: *f, register_first: true };
@@ -284,7 +320,12 @@ fn run_ops(ctx: Arc<Ctx>, body: usize, ops: Vec<AOp>, prefix: String) -> Pin<Box
 pub fn run_prog(p: &Arc<AProg>) {
     let ctx = Arc::new(Ctx {
         prog: (**p).clone(),
-        flags: (0..p.flags).map(|_| Flag { set: AtomicBool::new(false), wakers: StdMutex::new(vec![]) }).collect(),
+        flags: (0..p.flags)
+            .map(|_| {
+                let (tx, rx) = shuttle::sync::mpsc::channel::<()>();
+                Flag { set: AtomicBool::new(false), wakers: StdMutex::new(vec![]), tx, rx: StdMutex::new(Some(rx)) }
+            })
+            .collect(),
     });
     let v = shuttle::future::block_on(Traced { body: 0, fut: run_body(ctx, 0), done: false });
     log("ME", "0", v.to_string());
@@ -304,7 +345,8 @@ fn gen_ops(rng: &mut Rng, flags: usize, children: &[usize], thread_children: &[u
     for _ in 0..n {
         let k = rng.below(16);
         let op = match k {
-            0 | 1 | 2 if flags > 0 => AOp::FlagWait(rng.below(flags), rng.chance(1, 2)),
+            0 | 1 if flags > 0 => AOp::FlagWait(rng.below(flags), rng.chance(1, 2)),
+            2 if flags > 0 => AOp::FlagWaitBlocking(rng.below(flags)),
             3 | 4 | 5 if flags > 0 => AOp::FlagSet(rng.below(flags)),
             6 if flags > 1 => AOp::Select2(0, 1),
             7 => AOp::YieldNow,
@@ -557,7 +599,7 @@ fn check_exec(p: &AProg, ex: &ExecTrace, ending: &Ending, out: &mut RunOut, cj: 
     };
     let can_progress = |b: usize| -> Option<bool> {
         Some(match suspended_in(b)? {
-            AOp::FlagWait(f, _) => flag_set_at_end[f],
+            AOp::FlagWait(f, _) | AOp::FlagWaitBlocking(f) => flag_set_at_end[f],
             AOp::Select2(f, g) => flag_set_at_end[f] || flag_set_at_end[g],
             AOp::PendingForever => false,
             AOp::Await(s) => child_in_slot(b, s).map(|c| finished(c)).unwrap_or(false),
@@ -584,6 +626,22 @@ fn check_exec(p: &AProg, ex: &ExecTrace, ending: &Ending, out: &mut RunOut, cj: 
                                 "lost-wakeup-or-false-deadlock",
                                 format!("deadlock report {:?} lists body {} (task {}), suspended in {:?}, whose wake-up condition holds (flags set at the end: {:?})", m, b, t, suspended_in(*b), flag_set_at_end),
                             );
+                        }
+                    }
+                }
+                // an aborted task is woken by the abort: it cannot remain pending in a deadlocked execution
+                for (c, a) in &abort_done_at {
+                    // (a poll that is in progress — blocked inside a primitive — does not observe the abort)
+                    let mid_poll = ex.events.iter().rev().find(|e| (e.kind == "PS" || e.kind == "PE") && e.op == c.to_string()).map(|e| e.kind == "PS").unwrap_or(false);
+                    if !finished(*c) && !mid_poll {
+                        if let Some(t) = tid_of.get(c) {
+                            if ids.contains(t) {
+                                let nested = p.bodies[*c].iter().any(|o| matches!(o, AOp::NestedBlockOn(_)));
+                                v(
+                                    if nested { "known:F25:wake-during-nested-block_on-is-lost" } else { "aborted-task-never-cancelled" },
+                                    format!("abort() of body {} returned at event {} but the execution deadlocked with that task still pending (suspended in {:?}); an abort must wake its target so that it is cancelled", c, a, suspended_in(*c)),
+                                );
+                            }
                         }
                     }
                 }
@@ -649,10 +707,25 @@ pub fn check() -> Check {
         rule: "per run: a seeded async program (2-4 futures spawned with shuttle::future::spawn or run by block_on in extra threads; hand-written waker futures that register before/after checking and are woken from other tasks, self-waking futures, futures that return Pending without a waker, select with the loser dropped, nested block_on, yield_now) with faults abort (also repeated, through AbortHandle, before the first poll / while sleeping / after completion) and detach (drop of the JoinHandle) at drawn points; every task future is wrapped to log poll starts/ends, completion and drop. Oracle: result delivered exactly once and truthfully; Cancelled iff the abort took effect before completion (no poll starts after abort() returned; a poll already in progress may complete); a cancelled future is dropped and performs no further step; nobody's future is dropped without an abort; the final verdict is exact: a task listed in a deadlock report must be suspended in an operation whose wake-up condition does not hold. Distinct = (program, chosen sequence); non-trivial = at least one switch",
         assumptions: &["step-level enabledness of async tasks is not modelled; lost wake-ups are detected at the end of the execution (the task stays pending although its condition holds)", "futures moved between tasks after their first poll are covered by C18 (SemCancel) and C19"],
         real_components: "real: shuttle-engine executor (Task::from_future, wakers, sleep_unless_woken, block_on), shuttle-std future (spawn, JoinHandle, AbortHandle, Wrapper); stub: none",
-        batches: |t: Tier| vec![Batch::new("async", t.pick(20000, 400000), 400)],
-        run: |_b, _i, seed, _t| {
+        batches: |t: Tier| vec![Batch::new("async", t.pick(20000, 400000), 400), Batch::new("known", 4, 4)],
+        run: |b, i, seed, _t| {
             let mut rng = Rng::new(seed);
             let mut out = RunOut::default();
+            if b == "known" {
+                // pinned witness of known finding F25 (abort arriving during a nested block_on)
+                let prog = AProg {
+                    flags: 0,
+                    bodies: vec![
+                        vec![AOp::Spawn(1), AOp::AbortViaHandle(0), AOp::YieldNow, AOp::Abort(0), AOp::Await(0)],
+                        vec![AOp::Spawn(2), AOp::NestedBlockOn(vec![AOp::YieldNow]), AOp::PendingForever, AOp::YieldNow],
+                        vec![AOp::YieldNow],
+                    ],
+                };
+                let mut sim = SimCfg::new(3130958313277173833 + i);
+                sim.policy = crate::sim::Policy::RoundRobin;
+                check_case(&Case { prog, sim }, &mut out);
+                return out;
+            }
             let prog = gen_prog(&mut rng);
             let mut sim = SimCfg::new(rng.next_u64());
             sim.policy = random_policy(&mut rng);
